@@ -44,7 +44,7 @@ fn gen_sequences(tier: &str, seed: u64, out: &mut dyn FnMut(Value)) {
     let mut rng = Rng::new(seed ^ 0x5eed);
     let ids = [1i64, -1, 0, 2, 4294967297, -4294967295, 4294967296, i64::MIN, i64::MAX, -2, 8589934593];
     let srcs = ["a", "a-", "a--", "b", ""];
-    let n = if tier == "thorough" { 6000 } else { 500 };
+    let n = if tier == "thorough" { 30000 } else { 2000 };
     for _ in 0..n {
         let mut m = vec![];
         for s in srcs {
@@ -116,7 +116,7 @@ pub fn gen(tier: &str, seed: u64, out: &mut dyn FnMut(Value)) {
     // random maps with extreme ids
     let mut rng = Rng::new(seed);
     let ext = [0i64, 1, -1, i64::MAX, i64::MIN, i64::MIN + 1, i64::MAX - 1, 2, -2, 7];
-    let n = if tier == "thorough" { 20000 } else { 2000 };
+    let n = if tier == "thorough" { 100000 } else { 8000 };
     for _ in 0..n {
         let mut m = vec![];
         for s in ["a", "b", "c", ""] {
